@@ -310,7 +310,7 @@ macro_rules! structure_grid {
     )* };
 }
 structure_grid!(c03_rank_structure_n3: 3, c03_rank_structure_n15: 15, c03_rank_structure_n100: 100, c03_rank_structure_n4097: 4097);
-structure_grid!(t03_rank_structure_n1000: 1000, t03_rank_structure_n10007: 10007, t03_rank_structure_n65536: 65536);
+structure_grid!(t03_rank_structure_n1000: 1000, t03_rank_structure_n8193: 8193, t03_rank_structure_n65536: 65536);
 macro_rules! rank_grid {
     ($($name:ident : $n:expr),* $(,)?) => { $(
         #[kani::proof]
